@@ -4,6 +4,7 @@ import concurrent.futures
 import json
 import os
 import random
+import re
 import sys
 
 sys.path.insert(0, os.path.dirname(os.path.abspath(__file__)))
@@ -15,8 +16,35 @@ PRIMS = [5, 6]                  # string, int
 SPECIALS = [7, 8]               # error (universe), time.Time (non-universe built-in)
 U = DECL + PRIMS + SPECIALS
 KS = [0, 1, 2, 3, 4, 5, 6]      # Struct Field Enum Alias Constant Builtin Special
-EDGE_KINDS = [0, 1, 2, 3]       # ty ref fld val
+BASIC_KINDS = ["ty", "ref", "fld", "val"]   # kind numbers 0..3: the kinds the compound ops create (ETy ERef EFld EVal)
 ADD_OPS = ("AddPrimitive", "AddSpecial", "AddStruct", "AddField", "AddEnum", "AddAlias", "AddEdge")
+
+
+def read_edge_kinds(repo=None):
+    """Every SymbolEdgeKind constant DECLARED by the tree under test (graphs/symboldg/*.go), as the
+    list of kind names; position = the kind number used by the generator, the harness and the Coq
+    terms.  0..3 are ty ref fld val (fixed: the model's compound ops name them), the others follow in
+    declaration order.  The generator draws from ALL of them, so a kind added to the implementation
+    later is exercised without touching this file."""
+    d = os.path.join(repo or REPO, "graphs", "symboldg")
+    names = []
+    for fn in sorted(os.listdir(d)):
+        if not fn.endswith(".go") or fn.endswith("_test.go"):
+            continue
+        src = open(os.path.join(d, fn), encoding="utf-8", errors="replace").read()
+        src = re.sub(r"//[^\n]*", "", src)
+        for m in re.finditer(r'\b\w+\s+SymbolEdgeKind\s*=\s*"([^"]*)"', src):
+            names.append(m.group(1))
+        for m in re.finditer(r'\b\w+\s*=\s*SymbolEdgeKind\(\s*"([^"]*)"\s*\)', src):
+            names.append(m.group(1))
+    missing = [k for k in BASIC_KINDS if k not in names]
+    if missing or len(set(names)) != len(names):
+        raise RuntimeError("C17: cannot read the edge kinds of %s (found %r)" % (d, names))
+    return BASIC_KINDS + [k for k in names if k not in BASIC_KINDS]
+
+
+KINDS = read_edge_kinds()
+NK = len(KINDS)
 
 
 # ---------------------------------------------------------------- generator
@@ -30,6 +58,18 @@ def gen_history(rng, maxlen=25):
     nb = rng.choice([2, 3, 3, 4, 5])           # few bases => dense graphs, cycles, repeated ops
     bases = rng.sample(DECL, nb)
     cur = {}                                   # the version most recently used to add a base
+    # the edge kinds of this history: a small palette drawn from ALL declared kinds (few kinds =>
+    # several kinds between the same pair, removal by the kind that is / is not there)
+    pstyle = rng.random()
+    if pstyle < 0.3:
+        palette = [0, 1, 2]
+    elif pstyle < 0.9:
+        palette = rng.sample(range(NK), min(NK, rng.choice([1, 2, 2, 3, 3, 4])))
+    else:
+        palette = list(range(NK))
+
+    def ekind():
+        return rng.choice(palette) if rng.random() < 0.93 else rng.randrange(NK)
 
     def dkey(b=None):
         if b is None:
@@ -91,11 +131,14 @@ def gen_history(rng, maxlen=25):
             cur[k[0]] = k[1]
             op = {"op": "AddAlias", "k": k}
         elif r < 0.77:
-            op = {"op": "AddEdge", "f": anykey(), "t": anykey(), "kind": rng.choice(EDGE_KINDS[:3])}
+            op = {"op": "AddEdge", "f": anykey(), "t": anykey(), "kind": ekind()}
+            if h and h[-1]["op"] == "AddEdge" and rng.random() < 0.3:
+                # a second edge, of another kind, between the pair just linked
+                op["f"], op["t"] = list(h[-1]["f"]), list(h[-1]["t"])
         elif r < 0.88:
             op = {"op": "RemoveEdge", "f": anykey(), "t": anykey()}
             if rng.random() < 0.6:
-                op["kind"] = rng.choice(EDGE_KINDS[:3])
+                op["kind"] = ekind()
         else:
             if cur and rng.random() < 0.5:      # something that was added (often has dependants)
                 b = rng.choice(sorted(cur))
@@ -106,6 +149,46 @@ def gen_history(rng, maxlen=25):
                 op = {"op": "RemoveNode", "k": anykey()}
         h.append(op)
     return h
+
+
+def kinds_of(h):
+    """the edge kinds a history can create or names"""
+    ks = set()
+    for o in h:
+        t = o["op"]
+        if t in ("AddEdge", "RemoveEdge") and o.get("kind") is not None:
+            ks.add(o["kind"])
+        elif t == "AddStruct" and o.get("fields"):
+            ks.add(2)
+        elif t == "AddField":
+            ks.add(0)
+        elif t == "AddEnum" and o.get("vals"):
+            ks.update((1, 3))
+    return sorted(ks)
+
+
+def filters_for(h):
+    """The edge-kind filters Children/Parents/Descendants are asked through after every op of h (a
+    function of the history, so that replays and shrunk histories ask the same way): every kind of the
+    history alone, every pair of them (at most 6), all of them together, one kind the history never
+    uses, and the empty (non-nil) filter."""
+    ks = kinds_of(h)
+    fs = [[k] for k in ks]
+    pairs = [[a, b] for i, a in enumerate(ks) for b in ks[i + 1:]]
+    fs += pairs[:6]
+    if len(ks) > 2:
+        fs.append(list(ks))
+    absent = next((k for k in range(NK) if k not in ks), None)
+    if absent is not None:
+        fs.append([absent])
+        if ks:
+            fs.append([absent, ks[-1]])
+    fs.append([])
+    out = []
+    for f in fs:
+        if f not in out:
+            out.append(f)
+    return out
 
 
 # ---------------------------------------------------------------- Coq printing
@@ -166,16 +249,26 @@ def coq_obs(o):
         coq_list(["(%d,%d,%d)" % tuple(x) for x in o["rev"]]))
 
 
-HEADER = """From Gleece Require Import Base.Bytes Model.Graph.
+def coq_frows(o):
+    return coq_list(["Fr %d %s %s %s %s" % (r["b"], nl(r["ks"]), nl(r["ch"]), nl(r["pa"]), nl(r["de"]))
+                     for r in o.get("filt") or []])
+
+
+def nl(xs):
+    return coq_list([str(x) for x in xs])
+
+
+HEADER = """From Gleece Require Import Base.Bytes Model.Graph Model.GraphFilter.
 Local Open Scope N_scope.
 Definition U : list N := %s.
 Definition KS : list N := %s.
 Definition E f fv t tv k o := Ed (K f fv) (K t tv) k o.
-Definition case := (nat * list op * list obs)%%type.
-Definition cid (c : case) : nat := fst (fst c).
-Definition c_agrees (c : case) := let '(_, h, os) := c in agrees U KS h os.
-Definition c_dump (c : case) := let '(_, h, os) := c in agrees_dump U KS h os.
-Definition c_holds (c : case) := let '(_, h, os) := c in prop_C17 U KS h os.
+Definition case := (nat * list (list N) * list op * list obs * list (list frow))%%type.
+Definition cid (c : case) : nat := let '(i, _, _, _, _) := c in i.
+Definition c_agrees (c : case) := let '(_, _, h, os, _) := c in agrees U KS h os.
+Definition c_dump (c : case) := let '(_, _, h, os, _) := c in agrees_dump U KS h os.
+Definition c_holds (c : case) := let '(_, _, h, os, _) := c in prop_C17 U KS h os.
+Definition c_filt (c : case) := let '(_, fs, h, _, fos) := c in prop_C17_filtered U fs h fos.
 """ % (coq_list([str(x) for x in U]), coq_list([str(x) for x in KS]))
 
 
@@ -183,36 +276,52 @@ def coq_file(ids, cases, impl):
     body = [HEADER, "Definition cases : list case := ["]
     items = []
     for i in ids:
-        items.append("(%d%%nat,\n  %s,\n  %s)" % (
-            i, coq_list([coq_op(o) for o in cases[i]]), coq_list([coq_obs(o) for o in impl[i]]).replace("; Ob", ";\n   Ob")))
+        items.append("(%d%%nat,\n  %s,\n  %s,\n  %s,\n  %s)" % (
+            i, coq_list([nl(f) for f in filters_for(cases[i])]),
+            coq_list([coq_op(o) for o in cases[i]]), coq_list([coq_obs(o) for o in impl[i]]).replace("; Ob", ";\n   Ob"),
+            coq_list([coq_frows(o) for o in impl[i]])))
     body.append(";\n ".join(items))
     body.append("].\n")
     body.append("Definition disagree := Eval vm_compute in map cid (filter (fun c => negb (c_agrees c)) cases).\n"
                 "Definition dumpdis := Eval vm_compute in map cid (filter (fun c => negb (c_dump c)) cases).\n"
                 "Definition propfail := Eval vm_compute in map cid (filter (fun c => negb (c_holds c)) cases).\n"
-                "Print disagree.\nPrint dumpdis.\nPrint propfail.\n")
+                "Definition filtfail := Eval vm_compute in map cid (filter (fun c => negb (c_filt c)) cases).\n"
+                "Print disagree.\nPrint dumpdis.\nPrint propfail.\nPrint filtfail.\n")
     return "\n".join(body)
 
 
 def evaluate(cases, tag="cases", reps=2, chunk=60):
-    """Runs the histories on the real graph, then model agreement and the property oracle in Coq.
-    Returns (impl, disagree ids, dump-disagree ids, propfail ids)."""
-    impl = implrun("graph", {"reps": reps, "histories": cases})
+    """Runs the histories on the real graph, then model agreement and the property oracles in Coq.
+    Returns (impl, disagree ids, dump-disagree ids, propfail ids, dump available); propfail = prop_C17
+    fails or prop_C17_filtered (the answers through edge-kind filters) fails."""
+    impl = run_graph(cases, reps)
     dump_ok = all(o["dump"] for h in impl for o in h)
     jobs = []
     for lo in range(0, len(cases), chunk):
         ids = list(range(lo, min(lo + chunk, len(cases))))
         jobs.append(("%s_%d" % (tag, lo), coq_file(ids, cases, impl)))
-    disagree, dumpdis, propfail = [], [], []
+    disagree, dumpdis, propfail, filtfail = [], [], [], []
     with concurrent.futures.ThreadPoolExecutor(max_workers=min(12, max(1, len(jobs)))) as ex:
         outs = list(ex.map(lambda j: run_coq_file(PROP, j[0], j[1]), jobs))
     for out in outs:
         disagree += parse_nat_list(out, "disagree")
         dumpdis += parse_nat_list(out, "dumpdis")
         propfail += parse_nat_list(out, "propfail")
+        filtfail += parse_nat_list(out, "filtfail")
     if not dump_ok:
         dumpdis = []
-    return impl, sorted(disagree), sorted(dumpdis), sorted(propfail), dump_ok
+    LAST["filtfail"] = sorted(filtfail)
+    LAST["propfail_plain"] = sorted(propfail)
+    return impl, sorted(disagree), sorted(dumpdis), sorted(set(propfail) | set(filtfail)), dump_ok
+
+
+LAST = {}
+LAST0 = {}
+
+
+def run_graph(cases, reps=1, timeout=600):
+    return implrun("graph", {"reps": reps, "histories": cases, "kinds": KINDS,
+                             "filters": [filters_for(h) for h in cases]}, timeout=timeout)
 
 
 def shrink(case, which):
@@ -290,8 +399,12 @@ def classify(h, impl, findings):
 
 # ---------------------------------------------------------------- main
 
+FCLAUSES = ["answers through an edge-kind filter: Children/Parents/Descendants(node, EdgeKinds=ks) equal the "
+            "set-of-edges model restricted to the kinds ks (and nothing is answered for an absent node)",
+            "children/parents duality through a filter: x in Children(b, ks) iff b in Parents(x, ks)"]
 CLAUSES = ["harness consistency flags (version-independent key queries, Exists = (Get != nil), kind-filtered GetEdges, "
-           "sorted traversals, identical answers on re-execution, no panic)",
+           "sorted traversals return the unsorted answers' nodes in the order of the ordinals GetEdges lists, "
+           "node-kind filters, identical answers on re-execution, no panic)",
            "out/in agreement: every edge listed by GetEdges of some node is listed by both its source and its target",
            "query answers (Get/Exists, GetEdges, Children, Parents, Descendants, FindByKind) equal the "
            "set-of-nodes/set-of-edges model",
@@ -299,23 +412,54 @@ CLAUSES = ["harness consistency flags (version-independent key queries, Exists =
            "under the version given / re-inserting an existing node or edge changes nothing)"]
 
 
+DIAG_RE = r"Some\s*\(\s*(\d+)(?:%nat)?\s*,\s*\[([^\]]*)\]\s*,(.*)\)\s*:\s*option"
+
+
 def diagnose(h, impl_h):
-    """Which clause of prop_C17 fails first, and the plain model's state at that step."""
-    import re
-    body = HEADER + "Definition the_case : case := (0%%nat,\n  %s,\n  %s).\n" % (
-        coq_list([coq_op(o) for o in h]), coq_list([coq_obs(o) for o in impl_h])) + \
-        "Definition d := Eval vm_compute in (let '(_, h, os) := the_case in diag_C17 U KS h os).\nPrint d.\n"
+    """Which clauses of prop_C17 / prop_C17_filtered fail first, and the plain model's state at that step."""
+    fs = filters_for(h)
+    body = HEADER + "Definition dh : list op := %s.\nDefinition dos : list obs := %s.\n" \
+                    "Definition dfos : list (list frow) := %s.\n" % (
+        coq_list([coq_op(o) for o in h]), coq_list([coq_obs(o) for o in impl_h]),
+        coq_list([coq_frows(o) for o in impl_h])) + \
+        "Definition d := Eval vm_compute in diag_C17 U KS dh dos.\nPrint d.\n" \
+        "Definition df := Eval vm_compute in diag_C17_filtered U %s dh dfos.\nPrint df.\n" % coq_list([nl(f) for f in fs])
     try:
         out = run_coq_file(PROP, "diag", body)
     except Exception as ex:  # noqa
         return None
-    m = re.search(r"Some\s*\(\s*(\d+)(?:%nat)?\s*,\s*\[([^\]]*)\]\s*,(.*)\)\s*:\s*option", out, re.S)
-    if not m:
+    cut = out.find("df =")
+    m = re.search(DIAG_RE, out[:cut] if cut >= 0 else out, re.S)
+    mf = re.search(DIAG_RE, out[cut:], re.S) if cut >= 0 else None
+    if not m and not mf:
         return None
-    flags = [x.strip() == "true" for x in m.group(2).split(";") if x.strip()]
-    failed = [CLAUSES[i] for i, f in enumerate(flags) if not f]
-    return {"step": int(m.group(1)), "failed_clauses": failed,
-            "plain_model_state_at_that_step": " ".join(m.group(3).split())}
+    step = min(int(x.group(1)) for x in (m, mf) if x)
+    failed, res = [], {}
+    if m and int(m.group(1)) == step:
+        flags = [x.strip() == "true" for x in m.group(2).split(";") if x.strip()]
+        failed = [CLAUSES[i] for i, f in enumerate(flags) if not f]
+        if len(flags) > 0 and not flags[0]:
+            bad = [FLAG_NAMES[j] for j, f in enumerate(impl_h[step]["flags"]) if not f]
+            if bad:
+                failed[0] += " -- failing flag(s): " + "; ".join(bad)
+        res["plain_model_state_at_that_step"] = " ".join(m.group(3).split())
+    if mf and int(mf.group(1)) == step:
+        flags = [x.strip() == "true" for x in mf.group(2).split(";") if x.strip()]
+        failed += [FCLAUSES[i] for i, f in enumerate(flags) if not f]
+        res["filters_asked"] = [[KINDS[k] for k in f] for f in fs]
+        res["implementation_filtered_answers_at_that_step"] = [
+            {"node": r["b"], "edge_kinds": [KINDS[k] for k in r["ks"]], "children": r["ch"], "parents": r["pa"],
+             "descendants": r["de"]} for r in impl_h[step].get("filt") or []]
+        res["plain_model_state_at_that_step"] = " ".join(mf.group(3).split())
+    res.update({"step": step, "failed_clauses": failed})
+    return res
+
+
+FLAG_NAMES = ["queries under the two file versions of a key differ", "Exists != (Get != nil)",
+              "GetEdges(key, [kind]) != the edges of that kind in GetEdges(key, nil)",
+              "a sorted Children/Parents returns other nodes than the unsorted one (same filter)",
+              "a sorted Children/Parents (plain or through an edge-kind filter) does not list, in ordinal order, the nodes at the other end of the edges (of the admitted kinds) that GetEdges lists",
+              "Children/Parents(node, NodeKinds=[k]) != the plain answer restricted to node kind k"]
 
 
 def first_bad_step(h, impl_h):
@@ -329,7 +473,7 @@ def first_bad_step(h, impl_h):
             for e in es:
                 if e not in listed.get(e[0], set()) or e not in listed.get(e[2], set()):
                     return i, "edge %s is listed by GetEdges(base %d) but not by both of its endpoints" % (list(e), b)
-    return len(h) - 1, "an answer differs from the set-of-nodes/set-of-edges model (see prop_C17 clauses)"
+    return len(h) - 1, "an answer differs from the set-of-nodes/set-of-edges model (see prop_C17 / prop_C17_filtered clauses)"
 
 
 def main():
@@ -356,6 +500,7 @@ def main():
 
     try:
         impl, disagree, dumpdis, propfail, dump_ok = evaluate(cases, reps=2 if a.tier == "quick" else 3)
+        LAST0.update(LAST)
     except RuntimeError as ex:
         if "implrun graph failed" not in str(ex):
             raise
@@ -363,7 +508,7 @@ def main():
         # find a history that kills it and minimise it
         def dies(h):
             try:
-                implrun("graph", {"reps": 1, "histories": [h]}, timeout=120)
+                run_graph([h], 1, timeout=120)
                 return False
             except Exception:  # noqa
                 return True
@@ -407,7 +552,7 @@ def main():
         if keyj in seen_small:
             return
         seen_small.add(keyj)
-        o = implrun("graph", {"reps": 1, "histories": [small]})[0]
+        o = run_graph([small])[0]
         f = classify(small, o, findings)
         step, what = first_bad_step(small, o)
         if f is not None:
@@ -418,7 +563,8 @@ def main():
         if dg:
             step = dg["step"]
             what = "after op %d (%s): fails %s" % (step, json.dumps(small[step]), "; ".join(dg["failed_clauses"]))
-        rep = {"kind": kind, "input": small, "implementation_output": o, "claim": claim,
+        rep = {"kind": kind, "input": small, "edge_kind_names": {str(k): KINDS[k] for k in kinds_of(small)},
+               "implementation_output": o, "claim": claim,
                "first_inconsistent_step": step, "what": what, "diagnosis": dg}
         if kind == "correspondence":
             rep["obligation"] = "corr:Graph.step/observe"
@@ -429,8 +575,9 @@ def main():
         if reported >= 3 or budget[0] <= 0:
             break
         report(i, 3, "property-fails-on-implementation",
-               "prop_C17: out/in agreement of GetEdges, every query equals the set-of-nodes/set-of-edges "
-               "model, removal removes the node and all touching edges, re-insertion changes nothing")
+               "prop_C17: out/in agreement of GetEdges, every query (plain and through an edge-kind filter) "
+               "equals the set-of-nodes/set-of-edges model, removal removes the node and all touching edges, "
+               "re-insertion changes nothing")
     only_dis = [i for i in disagree + dumpdis if i not in propfail]
     if not res.violations and only_dis:
         budget[0] = max(budget[0], 2)
@@ -458,8 +605,21 @@ def main():
     cascade = replaced = errors = edge_steps = stale = repeats = 0
     max_edges = 0
     distinct = set()
+    kind_use, multi_kind_pair_steps, filt_rows, filt_queries = {}, 0, 0, 0
     for h, ob in zip(cases, impl):
         lengths[len(h)] = lengths.get(len(h), 0) + 1
+        nf = len(filters_for(h))
+        for o in h:
+            if o["op"] == "AddEdge":
+                kind_use[KINDS[o["kind"]]] = kind_use.get(KINDS[o["kind"]], 0) + 1
+        for x in ob:
+            filt_rows += len(x.get("filt") or [])
+            filt_queries += 3 * nf * len(x["nodes"])
+            es = {tuple(r[2 + 6 * j:8 + 6 * j]) for r in x["edges"] for j in range(r[1])}
+            pairs = {}
+            for e in es:
+                pairs.setdefault((e[0], e[2]), set()).add(e[4])
+            multi_kind_pair_steps += 1 if any(len(v) > 1 for v in pairs.values()) else 0
         prev_nodes = {}
         for i, (o, x) in enumerate(zip(h, ob)):
             opmix[o["op"]] = opmix.get(o["op"], 0) + 1
@@ -484,25 +644,34 @@ def main():
         "evaluations": len(cases), "distinct_nontrivial": len(distinct),
         "observations_compared": sum(len(h) for h in cases),
         "rule": "seeded op histories (length 1-25) over 5 declared bases x 2 file versions + 2 primitives + 2 "
-                "specials, edge kinds ty/ref/fld (+val through AddEnum); ops AddPrimitive/AddSpecial/AddStruct(with "
+                "specials; edge kinds: ALL SymbolEdgeKind constants declared in graphs/symboldg of the tree under "
+                "test (" + " ".join(KINDS) + "), a palette of 1-4 of them per history (30%: ty/ref/fld, 10%: all), "
+                "30% of the AddEdge ops after an AddEdge link the same pair again; ops AddPrimitive/AddSpecial/AddStruct(with "
                 "fields)/AddField(declared or built-in type)/AddEnum(with values)/AddAlias/AddEdge/RemoveEdge(kind or "
                 "nil)/RemoveNode; edges before nodes, removals of absent things, repeated ops (12%), stale and newer "
                 "file versions in three intensities; each history executed on a fresh symboldg.SymbolGraph "
                 "(twice or more: Go re-randomises map order); after EACH op Exists/Get/GetEdges(nil and per kind)/"
                 "Children/Parents/Descendants/FindByKind for every base and both key versions + the deps/revDeps "
                 "indices are compared with the model and prop_C17 is evaluated on the implementation's answers; "
+                "Children/Parents/Descendants are also asked through edge-kind filters (every kind of the history alone, "
+                "pairs, all, a kind the history does not use, the empty filter) and prop_C17_filtered is evaluated on "
+                "those answers; sorted (asc/desc) variants of every traversal must list the same nodes in ordinal order; "
                 "non-trivial = some observation has an edge; distinct = distinct histories",
         "samples": [{"input": cases[i], "implementation_last_observation": impl[i][-1] if impl[i] else None}
                     for i in range(ncorpus, min(len(cases), ncorpus + 2))],
         "traces_validated_against_impl": len(cases) - len(set(disagree)),
         "disagreements": len(disagree), "dump_disagreements": len(dumpdis),
         "property_oracle_failures": len(propfail), "adjacency_dump_available": dump_ok,
+        "filtered_oracle_failures": len(LAST0.get("filtfail", [])),
+        "filtered_traversal_queries": filt_queries, "filtered_traversal_nonempty_rows": filt_rows,
         "known_finding_examples": {k: v[:2] for k, v in known_examples.items()},
         "input_distribution": {
             "history_lengths": lengths, "op_mix": opmix, "immediate_repeats": repeats,
             "steps_hitting_orphan_cascade_or_eviction": cascade, "steps_replacing_a_node_version": replaced,
             "ops_returning_error": errors, "steps_with_edges": edge_steps, "max_distinct_edges": max_edges,
-            "histories_using_stale_version_keys": stale, "corpus_cases": ncorpus},
+            "histories_using_stale_version_keys": stale, "corpus_cases": ncorpus,
+            "edge_kinds_declared": KINDS, "add_edge_ops_per_kind": kind_use,
+            "steps_with_two_kinds_between_one_pair": multi_kind_pair_steps},
     })
     res.assumptions += [
         "RemoveEdge(kind=nil) selects inner keys by the string suffix '::'+toBase; modelled as equality of the "
@@ -510,8 +679,12 @@ def main():
         "edge ordinals are uint32 in Go and unbounded in the model",
         "Go map iteration order is not modelled: answers are compared as multisets (GetEdges as a set); each "
         "history is executed several times and any difference between executions fails the oracle (o_sane)",
-        "traversal behaviours (kind filters, ordinal sorting) are only checked in the harness to return the "
-        "same nodes as the unfiltered/unsorted query; deps/revDeps are read with reflect+unsafe",
+        "edge-kind filters of Children/Parents/Descendants are evaluated by prop_C17_filtered (sets); ordinal "
+        "sorting and node-kind filters are only checked in the harness (same nodes as the unsorted query, order = "
+        "the ordinals GetEdges lists; node-kind filter = restriction of the plain answer); FilterFunc is not "
+        "exercised; deps/revDeps are read with reflect+unsafe",
+        "the edge kind names are read from the const declarations of graphs/symboldg/*.go of the tree under test "
+        "(SymbolEdgeKind is a string type; the harness converts the names)",
     ]
     sys.exit(res.finish())
 
